@@ -60,6 +60,39 @@ func returnedBytes(fn *ssa.Function) (buf ssa.Value, extra []ssa.Value, direct s
 	return
 }
 
+// helperEmitted: v is the byte slice returned by a helper of the repository
+// that assembles it in a buffer created by that very call (encodeString(s)):
+// the operations the helper emits, its parameters replaced by the arguments.
+func helperEmitted(c *core.Ctx, v ssa.Value) ([]tok, bool) {
+	call, idx := core.CallResult(core.Canon(v))
+	if call == nil || idx > 0 {
+		return nil, false
+	}
+	h := call.Call.StaticCallee()
+	if h == nil || !inRepo(h) || len(h.Blocks) == 0 {
+		return nil, false
+	}
+	hb, hextra, hdirect, hp := returnedBytes(h)
+	if hp != "" || hb == nil || hdirect != nil || len(hextra) > 0 || !isFreshLocal(hb, h) {
+		return nil, false
+	}
+	toks, p := shapeOf(c, h, hb)
+	if p != "" {
+		return nil, false
+	}
+	toks = flatten(toks)
+	for i := range toks {
+		if pr, ok := core.Canon(toks[i].Val).(*ssa.Parameter); ok {
+			for j, hp := range h.Params {
+				if hp == pr && j < len(call.Call.Args) {
+					toks[i].Val = call.Call.Args[j]
+				}
+			}
+		}
+	}
+	return toks, true
+}
+
 // isFreshLocal: v is storage created by this very call of fn (a local
 // variable, new(T), make, a composite literal) — not a pooled or shared object.
 func isFreshLocal(v ssa.Value, fn *ssa.Function) bool {
@@ -128,12 +161,17 @@ func ruleReadersReturnWhatTheyConsume(c *core.Ctx, rule string) {
 			continue
 		}
 		if buf == nil && direct != nil {
-			// the reader returns the buffer it filled
-			if !isFreshLocal(direct, fn) {
-				c.Fail(rule, key, fn.Pos(), "the slice returned is not storage created by this call (pooled or shared buffer): a later read overwrites bytes a decoded value still refers to")
-				continue
+			if pre, ok := helperEmitted(c, direct); ok {
+				// the bytes were assembled by a helper of the repository in a buffer of its own
+				emitted = append(pre, emitted...)
+			} else {
+				// the reader returns the buffer it filled
+				if !isFreshLocal(direct, fn) {
+					c.Fail(rule, key, fn.Pos(), "the slice returned is not storage created by this call (pooled or shared buffer): a later read overwrites bytes a decoded value still refers to")
+					continue
+				}
+				emitted = append([]tok{{Kind: "prim", Name: "Bytes", Dir: "write", Val: direct}}, emitted...)
 			}
-			emitted = []tok{{Kind: "prim", Name: "Bytes", Dir: "write", Val: direct}}
 		}
 		d := compareConsumedEmitted(consumed, emitted)
 		c.Check(d == "", rule, key, fn.Pos(), "returns exactly what it consumes: "+shapeString(consumed), "the bytes returned are not the bytes consumed: "+d+" (an opaque value holding this type re-encodes to different bytes)")
